@@ -64,7 +64,8 @@ def c06(holder, stmt_holders, live):
                 f.append({"inv": "C06.table_graph_missing_node", "detail": desc,
                           "table": str(fp if fp not in tg else lp)})
             elif fp == lp:
-                if not tg.has_edge(fp, lp):
+                # the same table at both ends: a self-loop, or a cycle through other tables
+                if not tg.has_edge(fp, lp) and not any(nx.has_path(tg, s2, lp) for s2 in tg.successors(fp)):
                     f.append({"inv": "C06.table_graph_disconnected", "detail": desc, "table": str(fp)})
             elif not nx.has_path(tg, fp, lp):
                 f.append({"inv": "C06.table_graph_disconnected", "detail": desc, "table": str(fp)})
